@@ -8,33 +8,43 @@ EXTENDS TypedToolDefs, Json
 
 (* the case sets *)
 InCases ==
-  {InCase("in", vr, "map", FALSE, ClassAt(ix), ArgsAt(ix)) : vr \in Variants, ix \in ArgIx}
-  \cup {InCase("in", vr, "map", FALSE, <<NonObjLab[i]>>, NonObjArgs[i]) : vr \in Variants, i \in DOMAIN NonObjArgs}
+  {InCase("in", vr, "map", "none", ClassAt(ix), ArgsAt(ix)) : vr \in Variants, ix \in ArgIx}
+  \cup {InCase("in", vr, "map", "none", <<NonObjLab[i]>>, NonObjArgs[i]) : vr \in Variants, i \in DOMAIN NonObjArgs}
+XInCases ==
+  UNION {{InCase("xin", NoVariant, id, "none", <<"value">>, x) : x \in XVals(id)} : id \in XIds}
+GoCaches(ty) == IF ty = "InC" THEN Caches ELSE {"none", "warm"}
 RInCases ==
-  UNION {{InCase("rin", NoVariant, ty, ch, GoClassAt(ty, ix), GoArgsAt(ty, ix)) : ix \in GoArgIx(ty), ch \in BOOLEAN}
+  UNION {{InCase("rin", NoVariant, ty, ch, GoClassAt(ty, ix), GoArgsAt(ty, ix)) : ix \in GoArgIx(ty), ch \in GoCaches(ty)}
          : ty \in GoInTypes}
-  \cup {InCase("rin", NoVariant, ty, ch, <<NonObjLab[i]>>, NonObjArgs[i]) : ty \in GoInTypes, ch \in BOOLEAN, i \in DOMAIN NonObjArgs}
+  \cup UNION {{InCase("rin", NoVariant, ty, ch, <<NonObjLab[i]>>, NonObjArgs[i]) : ch \in GoCaches(ty), i \in DOMAIN NonObjArgs}
+              : ty \in GoInTypes}
+SInCases ==
+  {InCase("sin", NoVariant, "InC", ch, CClassAt(ix), CArgsAt(ix)) : ix \in CArgIx, ch \in Caches}
 
+WarmNone == {"none", "warm"}
 OutCases ==
   \* explicit schema, Out = any
-  {OutCase(sid, "any", FALSE, x, x[1] = "null", ct) : sid \in OutSchemaIds, x \in AnyVals, ct \in BOOLEAN}
+  {OutCase(sid, "any", "none", x, x[1] = "null", ct) : sid \in OutSchemaIds \ {"outsx"}, x \in AnyVals, ct \in BOOLEAN}
+  \cup {OutCase("objNest", "any", "none", x, FALSE, ct) : x \in NestVals, ct \in BOOLEAN}
   \* explicit schema, typed Out
-  \cup {OutCase(sid, "map", FALSE, x, FALSE, ct) : sid \in ObjIds, x \in ObjVals, ct \in BOOLEAN}
-  \cup {OutCase(sid, "map", FALSE, EmptyObj, TRUE, ct) : sid \in ObjIds, ct \in BOOLEAN}
-  \cup {OutCase("arr", "ints", FALSE, x, FALSE, ct) : x \in IntArrVals, ct \in BOOLEAN}
-  \cup {OutCase("arr", "ints", FALSE, JNull, TRUE, ct) : ct \in BOOLEAN}
-  \cup {OutCase("int", "int", FALSE, x, FALSE, ct) : x \in IntVals, ct \in BOOLEAN}
-  \cup {OutCase("enum", "str", FALSE, x, FALSE, ct) : x \in StrVals, ct \in BOOLEAN}
+  \cup UNION {{OutCase(sid, "map", "none", x, FALSE, ct) : x \in XVals(sid), ct \in BOOLEAN} : sid \in ObjIds}
+  \cup {OutCase(sid, "map", "none", EmptyObj, TRUE, ct) : sid \in ObjIds, ct \in BOOLEAN}
+  \cup {OutCase("arr", "ints", "none", x, FALSE, ct) : x \in IntArrVals, ct \in BOOLEAN}
+  \cup {OutCase("arr", "ints", "none", JNull, TRUE, ct) : ct \in BOOLEAN}
+  \cup {OutCase("int", "int", "none", x, FALSE, ct) : x \in IntVals, ct \in BOOLEAN}
+  \cup {OutCase("enum", "str", "none", x, FALSE, ct) : x \in StrVals, ct \in BOOLEAN}
+  \* explicit, stricter schema on the Go type OutS whose inferred schema may sit in the same SchemaCache
+  \cup {OutCase("outsx", "structx", ch, x, FALSE, ct) : x \in OutSVals \cup {BigOutS}, ch \in Caches, ct \in BOOLEAN}
   \* reflected schema
-  \cup {OutCase("reflect", k, ch, x, FALSE, ct) : k \in {"struct", "ptr"}, x \in OutSVals, ch \in BOOLEAN, ct \in BOOLEAN}
-  \cup {OutCase("reflect", "ptr", ch, ZeroOutS, TRUE, ct) : ch \in BOOLEAN, ct \in BOOLEAN}
+  \cup {OutCase("reflect", k, ch, x, FALSE, ct) : k \in {"struct", "ptr"}, x \in OutSVals \cup {BigOutS}, ch \in Caches, ct \in BOOLEAN}
+  \cup {OutCase("reflect", "ptr", ch, ZeroOutS, TRUE, ct) : ch \in WarmNone, ct \in BOOLEAN}
   \cup {OutCase("reflect", "strs", ch, x, x[1] = "null", ct) :
-          x \in {JNull, JArr(<<>>), JArr(<<JStr("x"), JStr("y")>>)}, ch \in BOOLEAN, ct \in BOOLEAN}
-  \cup {OutCase("reflect", "rint", ch, x, FALSE, ct) : x \in {JInt(0), JInt(7)}, ch \in BOOLEAN, ct \in BOOLEAN}
-  \cup {OutCase("reflect", "rstr", ch, x, FALSE, ct) : x \in {JStr(""), JStr("a")}, ch \in BOOLEAN, ct \in BOOLEAN}
-  \cup {OutCase("reflect", "rbool", ch, JBool(b), FALSE, ct) : b \in BOOLEAN, ch \in BOOLEAN, ct \in BOOLEAN}
+          x \in {JNull, JArr(<<>>), JArr(<<JStr("x"), JStr("y")>>)}, ch \in WarmNone, ct \in BOOLEAN}
+  \cup {OutCase("reflect", "rint", ch, x, FALSE, ct) : x \in {JInt(0), JInt(7)}, ch \in WarmNone, ct \in BOOLEAN}
+  \cup {OutCase("reflect", "rstr", ch, x, FALSE, ct) : x \in {JStr(""), JStr("a")}, ch \in WarmNone, ct \in BOOLEAN}
+  \cup {OutCase("reflect", "rbool", ch, JBool(b), FALSE, ct) : b \in BOOLEAN, ch \in WarmNone, ct \in BOOLEAN}
 
-InAll == InCases \cup RInCases
+InAll == InCases \cup XInCases \cup RInCases \cup SInCases
 
 FailIn(c)  == IF HoldsIn(c, ExpectedIn(c)) THEN FALSE
               ELSE PrintT(<<"design-fail-in", c, ExpectedIn(c)>>)
@@ -60,6 +70,16 @@ Witnesses ==
                                /\ \E c \in OutCases : c.sid = sid /\ ~OutOk(c) /\ ~Lead(c)
   /\ \E c \in OutCases : OutOk(c) /\ ~SameJ(OutJson(c), c.out)      \* output defaults matter
   /\ \E c \in OutCases : Lead(c)
+  \* applying defaults turns a valid value into an invalid one (input and output side)
+  /\ \A id \in XIds :
+        (\E c1 \in XInCases : c1.ty = id /\ Valid(CaseInSchema(c1), c1.args) /\ ~ValidIn(c1))
+        /\ (\E c2 \in XInCases : c2.ty = id /\ ValidIn(c2))
+        /\ (\E c3 \in OutCases : c3.sid = id /\ Valid(CaseOutSchema(c3), c3.out) /\ ~OutOk(c3))
+  \* a case-variant member is valid as an additional member and must not reach the field
+  /\ \E c \in SInCases : ValidIn(c) /\ "Limit" \in DOMAIN c.args[2] /\ "limit" \notin DOMAIN c.args[2]
+  \* valid under the inferred schema of the Go type, invalid under the explicit one
+  /\ \E c \in SInCases : ~ValidIn(c) /\ Valid(InCInferred, c.args)
+  /\ \E c \in OutCases : c.sid = "outsx" /\ ~OutOk(c) /\ Valid(GoOutSchema("struct"), c.out)
 
 -----------------------------------------------------------------------------
 (* export *)
@@ -79,13 +99,17 @@ SJ(s) ==
   @@ (IF s.addl THEN <<>> ELSE "additionalProperties" :> FALSE)
   @@ (IF s.items = <<>> THEN <<>> ELSE "items" :> SJ(s.items[1]))
   @@ (IF s.maxItems = <<>> THEN <<>> ELSE "maxItems" :> s.maxItems[1])
+  @@ (IF s.maxProps = <<>> THEN <<>> ELSE "maxProperties" :> s.maxProps[1])
+  @@ (IF DOMAIN s.depReq = {} THEN <<>> ELSE "dependentRequired" :> [p \in DOMAIN s.depReq |-> SetToSeq(s.depReq[p])])
 
 MapSeq(S, F(_)) == LET q == SetToSeq(S) IN [i \in DOMAIN q |-> F(q[i])]
 L1(vr)  == [kind |-> "schema", dir |-> "in", id |-> VarId(vr), schema |-> SJ(InSchemaF[vr])]
 L2(sid) == [kind |-> "schema", dir |-> "out", id |-> sid, schema |-> SJ(OutSchema(sid))]
 L3(ty)  == [kind |-> "goschema", dir |-> "in", id |-> ty, schema |-> SJ(GoInSchema(ty))]
 L4(k)   == [kind |-> "goschema", dir |-> "out", id |-> k, schema |-> SJ(GoOutSchema(k))]
-SchemaLines == MapSeq(Variants, L1) \o MapSeq(OutSchemaIds, L2) \o MapSeq(GoInTypes, L3) \o MapSeq(GoOutKinds, L4)
+L5(id)  == [kind |-> "schema", dir |-> "xin", id |-> id, schema |-> SJ(XSchema(id))]
+L6(x)   == [kind |-> "schema", dir |-> "sin", id |-> "InC", schema |-> SJ(InCExplicit)]
+SchemaLines == MapSeq(Variants, L1) \o MapSeq(OutSchemaIds, L2) \o MapSeq(XIds, L5) \o MapSeq({"InC"}, L6) \o MapSeq(GoInTypes, L3) \o MapSeq(GoOutKinds, L4)
 
 InLine(c) == [kind |-> c.kind, vid |-> IF c.kind = "in" THEN VarId(c.vr) ELSE c.ty, vr |-> c.vr, ty |-> c.ty,
               cache |-> c.cache, cls |-> c.cls, args |-> c.args, valid |-> ValidIn(c)]
@@ -98,6 +122,7 @@ ASSUME DesignIn
 ASSUME DesignOut
 ASSUME Witnesses
 ASSUME PrintT(ToJson([incases |-> Cardinality(InCases), rincases |-> Cardinality(RInCases),
+                      xincases |-> Cardinality(XInCases), sincases |-> Cardinality(SInCases),
                       outcases |-> Cardinality(OutCases), leads |-> Cardinality({c \in OutCases : Lead(c)}),
                       validin |-> Cardinality({c \in InAll : ValidIn(c)}),
                       outok |-> Cardinality({c \in OutCases : OutOk(c)})]))
